@@ -5,7 +5,7 @@ CONSTANTS
   P = 7
   Chains = {"2", "4"}
   Unknown = {"9"}
-  Txs = {"aa", "bb"}
+  Txs = {"07", "0007"}
   Cap = 1
   OutCap = 1
   TimeSteps = {1, 4, 7, 11, 12}
